@@ -34,8 +34,8 @@ RuleAst(name, rv, src) ==
     [] rv.t = "set"   -> [base EXCEPT !.props = RulesAst(rv.rules, src)] @@ [tt |-> "object", v |-> Empty]
 RulesAst(rules, src) == [i \in DOMAIN rules |-> RuleAst(rules[i].n, rules[i].v, src)]
 
-\* the note of a node: written after its rules, or - for an object - after its closing brace (tnote; never both in the families)
-NoteOf(n) == IF "tnote" \in DOMAIN n THEN n.tnote ELSE IF "note" \in DOMAIN n THEN n.note ELSE ""
+\* the note of a node: written after its rules, or - for an object - after its closing brace (tnote), or - for a property value - between the key and the value on the next line (knote); never two of them in the families
+NoteOf(n) == IF "knote" \in DOMAIN n THEN n.knote ELSE IF "tnote" \in DOMAIN n THEN n.tnote ELSE IF "note" \in DOMAIN n THEN n.note ELSE ""
 
 SchemaTypeOf(n) ==
   IF HasRule(n, "enum") THEN "enum"
